@@ -23,7 +23,6 @@ import   "math"
 import   "sort"
 
 import . "github.com/pbenner/autodiff"
-import   "github.com/pbenner/autodiff/algorithm/backSubstitution"
 import   "github.com/pbenner/autodiff/algorithm/qrAlgorithm"
 
 /* -------------------------------------------------------------------------- */
@@ -96,8 +95,47 @@ func getEigenvalues(eigenvalues Vector, h Matrix) {
   }
 }
 
+// solve h[0:k,0:k] x = b[0:k] for a quasi-upper-triangular h (real Schur
+// form); a 2x2 diagonal block (complex pair) is solved by Cramer's rule
+func quasiBackSubstitution(h Matrix, b, x Vector, k int) {
+  t := NullScalar(h.ElementType())
+  d := NullScalar(h.ElementType())
+  u := NullScalar(h.ElementType())
+  v := NullScalar(h.ElementType())
+  // r_i = b_i - sum_{j=from}^{k-1} h_ij x_j
+  residual := func(i, from int) {
+    x.At(i).Set(b.ConstAt(i))
+    for j := from; j < k; j++ {
+      t.Mul(h.ConstAt(i,j), x.ConstAt(j))
+      x.At(i).Sub(x.ConstAt(i), t)
+    }
+  }
+  for i := k-1; i >= 0; i-- {
+    if i > 0 && h.ConstAt(i,i-1).GetFloat64() != 0.0 {
+      residual(i  , i+1)
+      residual(i-1, i+1)
+      a11, a12 := h.ConstAt(i-1,i-1), h.ConstAt(i-1,i)
+      a21, a22 := h.ConstAt(i  ,i-1), h.ConstAt(i  ,i)
+      d.Mul(a11, a22)
+      t.Mul(a12, a21)
+      d.Sub(d, t)
+      u.Mul(x.ConstAt(i-1), a22)
+      t.Mul(a12, x.ConstAt(i))
+      u.Sub(u, t)
+      v.Mul(a11, x.ConstAt(i))
+      t.Mul(a21, x.ConstAt(i-1))
+      v.Sub(v, t)
+      x.At(i-1).Div(u, d)
+      x.At(i  ).Div(v, d)
+      i--
+    } else {
+      residual(i, i+1)
+      x.At(i).Div(x.ConstAt(i), h.ConstAt(i,i))
+    }
+  }
+}
+
 func getEigenvector(eigenvector Vector, eigenvalue ConstScalar, h, u Matrix, b Vector, k int) Vector {
-  inSitu := backSubstitution.InSitu{}
   // substract eigenvalue from diagonal
   for i := 0; i < k; i++ {
     h.At(i,i).Sub(h.At(i,i), eigenvalue)
@@ -108,8 +146,7 @@ func getEigenvector(eigenvector Vector, eigenvalue ConstScalar, h, u Matrix, b V
     b.At(i).Neg(b.At(i))
   }
   if k > 0 {
-    inSitu.X = eigenvector.Slice(0,k)
-    backSubstitution.Run(h.Slice(0,k,0,k), b.Slice(0,k), &inSitu)
+    quasiBackSubstitution(h, b, eigenvector, k)
   }
   eigenvector.At(k).SetFloat64(1.0)
   // clear the remaining entries (the buffer may be re-used)
